@@ -31,8 +31,9 @@ ASSUMPTIONS = [
     "'HS reset': >= 3 ms of SE0 while in HS operation, then a non-J sample >= 200us after HS operation was left",
     "chirp_length (extra, USB2 7.1.7.5 TUCH >= 1 ms) is only asserted when bus_busy was low since the reset was reported",
 ]
-BOUNDS = "BMC from reset with all inputs free per cycle: constants A K=46 (quick) / 84 (thorough, with vbus/disconnect/" \
-         "bus_busy pinned beyond the free depth), constants B K=30 / 44; audit of the real constants"
+BOUNDS = "BMC from reset with all inputs free per cycle: constants A K=44 (quick, HS-related assertions) / K=50 (thorough, " \
+         "all assertions), constants B K=30 / 44; thorough adds constants A K=84 with a scripted clean reset+handshake in " \
+         "cycles 0..36 and all inputs free from cycle 37; static audit of the real constants"
 OUTSIDE = "real-time constants in the sequential clauses (scaled only; the real values are audited statically); " \
           "which of FULL/LOW is selected on fallback; device.py wiring of the restriction inputs; " \
           "resume detection polarity (LS/FS K) while suspended"
@@ -302,7 +303,7 @@ def queries(tier):
               desc="real _CYCLES_* vs spec time x 60 MHz: " + _audit_text()),
         Query("bmc_B", fb, 30 if quick else 44, asserts=b_asserts, covers=b_covers, timeout=600,
               desc="constants B (short 2.5ms/3ms): FS reset thresholds, suspend, fallback on chirp timeout; all inputs free"),
-        Query("bmc_A", fa, 44 if quick else 56, asserts=a_asserts_q if quick else None,
+        Query("bmc_A", fa, 44 if quick else 50, asserts=a_asserts_q if quick else None,
               covers=["hs_entry", "leave_hs"], timeout=900,
               desc="constants A: full HS handshake from reset, entry conditions, restriction handling; all inputs free"),
         Query("cosim_A", fa, 0, kind="cosim", cosim_cycles=150 if quick else 1500),
